@@ -160,8 +160,12 @@ def run_case(case):
                 res.fail("file-time-description" + tag, rel)
             if init_ts is None:
                 init_ts = a.get("init_utc_timestamp")
-                if init_ts is None or abs(init_ts - start_s) > 1:
-                    res.fail("init-timestamp" + tag, "%s init %r start %d" % (rel, init_ts, start_s))
+                # the library divides in long double: provably exact for integer rates below 2^31 (the quotient is
+                # correctly rounded and at least 1/n away from the next integer); otherwise +-1 s is accepted
+                tol = 0 if (cfg["d"] == 1 and cfg["n"] < 2 ** 31) else 1
+                if init_ts is None or abs(init_ts - start_s) > tol:
+                    res.fail("init-timestamp" + tag, "%s init %r start second %d (rate %d/%d, start index %d)" % (
+                        rel, init_ts, start_s, cfg["n"], cfg["d"], cfg["start"]))
             elif a.get("init_utc_timestamp") != init_ts:
                 res.fail("init-timestamp-varies" + tag, rel)
             seqs.append(a.get("sequence_num"))
